@@ -1,12 +1,75 @@
-(* C08 — Loops reported parallelisable have no loop-carried dependence.  Property theorems only. *)
+(* C08 — Loops reported parallelisable have no loop-carried dependence.  Property theorems only.
+
+   FULL STATEMENT (false of the faithful model, hence of the code as it is today — see the _refuted theorems):
+     forall odist oneq incr dtab x lo hi st body,
+       can_par odist oneq incr dtab x lo hi st body <> Diverges /\
+       (can_par odist oneq incr dtab x lo hi st body = Par ->
+        forall f s its, iterations_of f x lo hi st body s its -> ~ conflict body (map snd its)).
+   What is proved instead: the second conjunct under the sufficient condition [safe] (C08_par_sound_partial;
+   missing: integer division / MOD / symbolic coefficients in subscripts, subscripts using variables the body
+   writes or mixing x with inner loop variables, conditionally written scalars, bodies with EXIT/CYCLE/
+   PRINT/regions), the first conjunct relative to the source (C08_analysis_answers_src), and five refutations
+   of the full statement by concrete loops and inputs. *)
 From Coq Require Import List ZArith Bool.
 Import ListNotations.
-From PV Require Import Fort.Syntax Fort.Sem C08.Model C08.Safe C08.Spec C08.GenSrc C08.Dvar C08.Refuted.
+From PV Require Import Fort.Syntax Fort.Sem C08.Model C08.Safe C08.Spec C08.GenSrc C08.Dvar C08.Refuted
+     C08.Sound C08.Examples.
 Close Scope Z_scope.
 
-(* "The analysis answers (terminates) for every loop": stated over the constant regenerated from the source.
-   Without `idx += 1` in the fresh-name loop of _get_dependency_distance the statement is the refutation
-   (a loop on which the analysis diverges), with it the analysis answers for every loop. *)
+(* ---- soundness on the safe fragment; the two premises say that sympy's answers (the oracle) are exact on
+        translation-exact subscripts; affine subscripts are decided inside the model and need no premise *)
+Theorem C08_par_sound_partial :
+  forall (odist : name -> expr -> expr -> bool) (oneq : expr -> expr -> bool) (incr : bool) (dtab : list (nat * name)),
+  (* sympy_solveset_exact *)
+  (forall x w o, odist x w o = true -> tr_exact x w = true -> tr_exact x o = true ->
+     forall s1 s2 v,
+       (forall n ix, n <> x -> In n (enames w ++ enames o) -> val s1 (n, ix) = val s2 (n, ix)) ->
+       eval s1 w = Some v -> eval s2 o = Some v -> val s1 (x, []) = val s2 (x, [])) ->
+  (* sympy_simplify_exact *)
+  (forall x w o, oneq w o = true -> tr_exact x w = true -> tr_exact x o = true ->
+     forall s1 s2 v1 v2,
+       (forall n ix, In n (enames w ++ enames o) -> val s1 (n, ix) = val s2 (n, ix)) ->
+       eval s1 w = Some v1 -> eval s2 o = Some v2 -> v1 <> v2) ->
+  forall x lo hi st body,
+    safe x body = true ->
+    can_par odist oneq incr dtab x lo hi st body = Par ->
+    forall f s its, iterations_of f x lo hi st body s its -> ~ conflict body (map snd its).
+Proof. exact par_sound. Qed.
+Print Assumptions C08_par_sound_partial.
+
+(* ---- the same without any premise when no sympy answer for a non-affine subscript is relied on *)
+Theorem C08_par_sound_affine_partial : forall incr dtab x lo hi st body,
+  safe x body = true ->
+  can_par no_odist no_oneq incr dtab x lo hi st body = Par ->
+  forall f s its, iterations_of f x lo hi st body s its -> ~ conflict body (map snd its).
+Proof. exact par_sound_affine. Qed.
+Print Assumptions C08_par_sound_affine_partial.
+
+(* ---- [iterations_of] is what Fort.Sem.exec does with the loop: its trace is made of the iteration traces *)
+Theorem C08_loop_iterations_exist : forall f x lo hi st body s s' tr c,
+  forallb simple body = true ->
+  exec (S f) [SDo x lo hi st body] s = Ok s' tr c ->
+  exists its, iterations_of f x lo hi st body s its /\
+              tr = loop_trace x (ereads s lo ++ ereads s hi ++ ereads s st) (map snd its).
+Proof. exact loop_iterations_exist. Qed.
+Print Assumptions C08_loop_iterations_exist.
+
+(* ---- non-vacuity of the hypotheses of the soundness theorems *)
+Example C08_par_sound_nonvacuous : forall incr,
+  safe 4 ex_body = true /\ can_par no_odist no_oneq incr [] 4 (ELit 1) (EVar 6) (ELit 1) ex_body = Par /\
+  exists f s its, iterations_of f 4 (ELit 1) (EVar 6) (ELit 1) ex_body s its /\ length its = 3.
+Proof. exact par_sound_nonvacuous. Qed.
+Print Assumptions C08_par_sound_nonvacuous.
+
+Example C08_par_sound_oracle_nonvacuous : forall odist oneq incr,
+  oneq (EIdx 2 [ELit 3]) (EBin Add (EIdx 2 [ELit 3]) (ELit 1)) = true ->
+  safe 1 ex2_body = true /\ can_par odist oneq incr [] 1 (ELit 1) (ELit 3) (ELit 1) ex2_body = Par.
+Proof. exact par_sound_oracle_nonvacuous. Qed.
+Print Assumptions C08_par_sound_oracle_nonvacuous.
+
+(* ---- "The analysis answers (terminates) for every loop": stated over the constant regenerated from the
+        source.  Without `idx += 1` in the fresh-name loop of _get_dependency_distance the statement is the
+        refutation (a loop on which the analysis diverges); with it the analysis answers for every loop. *)
 Theorem C08_analysis_answers_src : analysis_answers_statement src_idx_incremented.
 Proof. exact analysis_answers_src. Qed.
 Print Assumptions C08_analysis_answers_src.
@@ -22,6 +85,12 @@ Theorem C08_dvar_terminates_refuted : forall taken, taken 0 = true -> taken 1 = 
 Proof. exact fresh_noincr_diverges. Qed.
 Print Assumptions C08_dvar_terminates_refuted.
 
+Theorem C08_analysis_answers_when_incremented : forall odist oneq dtab x lo hi st body,
+  can_par odist oneq true dtab x lo hi st body <> Diverges.
+Proof. exact can_par_incr_answers. Qed.
+Print Assumptions C08_analysis_answers_when_incremented.
+
+(* ---- refutations of the full statement (each witness is replayed on the implementation by the check) *)
 Theorem C08_par_refuted_div : forall odist oneq incr,
   refutes odist oneq incr 2 (ELit 2) (ELit 3) (ELit 1) div_body.
 Proof. exact par_refuted_div_. Qed.
@@ -31,3 +100,19 @@ Theorem C08_par_refuted_cond_scalar : forall odist oneq incr,
   refutes odist oneq incr 2 (ELit 1) (ELit 2) (ELit 1) cond_body.
 Proof. exact par_refuted_cond_scalar_. Qed.
 Print Assumptions C08_par_refuted_cond_scalar.
+
+Theorem C08_par_refuted_symcoef : forall odist oneq incr,
+  odist 1 (EBin Mul (EVar 2) (EVar 1)) (EBin Mul (EVar 2) (EVar 1)) = true ->
+  refutes odist oneq incr 1 (ELit 1) (ELit 2) (ELit 1) sym_body.
+Proof. exact par_refuted_symcoef_. Qed.
+Print Assumptions C08_par_refuted_symcoef.
+
+Theorem C08_par_refuted_written_scalar : forall odist oneq incr,
+  refutes odist oneq incr 2 (ELit 1) (ELit 2) (ELit 1) wsc_body.
+Proof. exact par_refuted_written_scalar_. Qed.
+Print Assumptions C08_par_refuted_written_scalar.
+
+Theorem C08_par_refuted_multi_subscript : forall odist oneq incr,
+  refutes odist oneq incr 1 (ELit 1) (ELit 2) (ELit 1) multi_body.
+Proof. exact par_refuted_multi_subscript_. Qed.
+Print Assumptions C08_par_refuted_multi_subscript.
